@@ -1,10 +1,12 @@
-\* every history of 5 next/send("a") calls on 2 live generators x every pair of the 14 templates
+\* every history of 4 next/send("a") calls on 2 live generators x every pair of the 14 templates
 SPECIFICATION SpecCalls
 CONSTANTS
   NTop = 2
-  MaxOps = 5
+  MaxOps = 4
   NB = 14
   MaxMicro = 80
+  MaxOpsOne = 0
+  LockChoices <- NoTops
   Bodies <- B
   SendVals <- SendQuick
   TopChoices <- AllTops
